@@ -153,36 +153,36 @@ Definition sp_from_ansi (c : N) : N := c.
 Section SStyle.
   Variable C : Type.
 
-  Record sstyle : Type := mkS { sp_fg : option C; sp_bg : option C; sp_ul : option C; sp_eff : N }.
+  Record astyle : Type := mkAS { sp_fg : option C; sp_bg : option C; sp_ul : option C; sp_eff : N }.
 
   Inductive cfield : Set := FFg | FBg | FUl.
 
-  Definition sp_get (f : cfield) (s : sstyle) : option C :=
+  Definition sp_get (f : cfield) (s : astyle) : option C :=
     match f with FFg => sp_fg s | FBg => sp_bg s | FUl => sp_ul s end.
 
   (* a setter replaces its own field and nothing else *)
-  Definition sp_setc (f : cfield) (v : option C) (s : sstyle) : sstyle :=
+  Definition sp_setc (f : cfield) (v : option C) (s : astyle) : astyle :=
     match f with
-    | FFg => mkS v (sp_bg s) (sp_ul s) (sp_eff s)
-    | FBg => mkS (sp_fg s) v (sp_ul s) (sp_eff s)
-    | FUl => mkS (sp_fg s) (sp_bg s) v (sp_eff s)
+    | FFg => mkAS v (sp_bg s) (sp_ul s) (sp_eff s)
+    | FBg => mkAS (sp_fg s) v (sp_ul s) (sp_eff s)
+    | FUl => mkAS (sp_fg s) (sp_bg s) v (sp_eff s)
     end.
 
-  Definition sp_set_eff (e : N) (s : sstyle) : sstyle := mkS (sp_fg s) (sp_bg s) (sp_ul s) e.
+  Definition sp_set_eff (e : N) (s : astyle) : astyle := mkAS (sp_fg s) (sp_bg s) (sp_ul s) e.
 
-  Definition sp_plain : sstyle := mkS None None None 0.
+  Definition sp_plain : astyle := mkAS None None None 0.
 
   Definition is_none (o : option C) : bool := match o with None => true | Some _ => false end.
 
-  Definition sp_no_colours (s : sstyle) : bool := is_none (sp_fg s) && is_none (sp_bg s) && is_none (sp_ul s).
+  Definition sp_no_colours (s : astyle) : bool := is_none (sp_fg s) && is_none (sp_bg s) && is_none (sp_ul s).
 
   (* a style equals an effects value exactly when it has those effects and no colours *)
-  Definition sp_eq_effects (s : sstyle) (e : N) : bool := sp_no_colours s && (sp_eff s =? e).
+  Definition sp_eq_effects (s : astyle) (e : N) : bool := sp_no_colours s && (sp_eff s =? e).
 
-  Definition sp_style_is_plain (s : sstyle) : bool := sp_no_colours s && sp_is_plain (sp_eff s).
+  Definition sp_style_is_plain (s : astyle) : bool := sp_no_colours s && sp_is_plain (sp_eff s).
 End SStyle.
 
-Arguments mkS {C}.
+Arguments mkAS {C}.
 Arguments sp_fg {C}.
 Arguments sp_bg {C}.
 Arguments sp_ul {C}.
